@@ -1,6 +1,6 @@
 (* C10 — defaults, annotations and kinds of combined parameters. *)
 From Sigtools.Model Require Import Base Bind Roles Algebra.
-From Sigtools.Proofs Require Import SmallModel Basics ProvKeys Contrib.
+From Sigtools.Proofs Require Import SmallModel Basics ProvKeys Contrib ContribEmbed.
 
 Theorem C10_optional_iff l r : has_def (concile l r) = has_def l && has_def r.
 Proof. exact (concile_optional_iff l r). Qed.
@@ -53,4 +53,42 @@ Print Assumptions C10_merge2_by_name.
 Theorem C10_merge2_by_name_needs_consistency : exists (a b r : sigT) (p : param), valid_sig (params a) = true /\ valid_sig (params b) = true /\ merge [a; b] = Ok r /\ In p (params r) /\ is_named p = true /\ (exists qa qb : param, find_param (pname p) (params a) = Some qa /\ find_param (pname p) (params b) = Some qb /\ ~ restr (concile qa qb) p /\ src_get (srcs r) (pname p) = [100] /\ src_get (srcs b) (pname p) = [101]).
 Proof. exact @Contrib.merge2_by_name_needs_consistency. Qed.
 Print Assumptions C10_merge2_by_name_needs_consistency.
+
+
+(* ---- contributors, dropped defaults and order for embed, mask and partial (Proofs/ContribEmbed.v) ---- *)
+Theorem C10_embed2_contrib : forall (o i : sigT) (uva uvk : bool) (r : sigT), embed [o; i] uva uvk = Ok r -> Forall (econtrib (params o) (params i)) (params r).
+Proof. exact @ContribEmbed.embed2_contrib. Qed.
+Print Assumptions C10_embed2_contrib.
+
+Theorem C10_embed2_outer : forall (o i : sigT) (uva uvk : bool) (r : sigT), embed [o; i] uva uvk = Ok r -> valid_sig (params o) = true -> forall q : param, In q (params o) -> survives uva uvk q -> exists p : param, In p (params r) /\ pname p = pname q /\ pann p = pann q /\ puann p = puann q /\ Contrib.kind_ok (pkind q) (pkind p) /\ pdef p = (if is_positional q && cleared o r then None else pdef q).
+Proof. exact @ContribEmbed.embed2_outer. Qed.
+Print Assumptions C10_embed2_outer.
+
+Theorem C10_embed2_cleared_required : forall o r : sigT, cleared o r = true -> exists f : param, In f (positional (params r)) /\ mem (pname f) (names_of (positional (params o))) = false /\ has_def f = false.
+Proof. exact @ContribEmbed.embed2_cleared_required. Qed.
+Print Assumptions C10_embed2_cleared_required.
+
+Theorem C10_embed2_optional : forall (o i : sigT) (uva uvk : bool) (r : sigT) (p : param), embed [o; i] uva uvk = Ok r -> In p (params r) -> has_def p = true -> exists q : param, (In q (params o) \/ In q (params i)) /\ pname q = pname p /\ has_def q = true.
+Proof. exact @ContribEmbed.embed2_optional. Qed.
+Print Assumptions C10_embed2_optional.
+
+Theorem C10_embed2_order : forall (o i : sigT) (uva uvk : bool) (r : sigT), embed [o; i] uva uvk = Ok r -> valid_sig (params o) = true -> valid_sig (params i) = true -> names_of (positional (params r)) = names_of (positional (params o)) ++ filter (fun x : N => mem x (names_of (positional (params r))) && negb (mem x (names_of (positional (params o))))) (names_of (positional (params i))) /\ names_of (kwonly (params r)) = names_of (kwonly (params o)) ++ filter (fun x : N => mem x (names_of (kwonly (params r))) && negb (mem x (names_of (kwonly (params o))))) (names_of (positional (params i) ++ kwonly (params i))).
+Proof. exact @ContribEmbed.embed2_order. Qed.
+Print Assumptions C10_embed2_order.
+
+Theorem C10_mask_gen_contrib : forall (s : sigT) (n : nat) (h : hideflags) (named : list (name * N)) (pm : pmode) (r : sigT), mask_gen s n h named pm = Ok r -> Forall (mcontrib pm named (params s)) (params r).
+Proof. exact @ContribEmbed.mask_gen_contrib. Qed.
+Print Assumptions C10_mask_gen_contrib.
+
+Theorem C10_mask_contrib : forall (s : sigT) (n : nat) (names0 : list name) (h : hideflags) (r : sigT), mask s n names0 h = Ok r -> forall p : param, In p (params r) -> exists q : param, In q (params s) /\ Contrib.restr q p.
+Proof. exact @ContribEmbed.mask_contrib. Qed.
+Print Assumptions C10_mask_contrib.
+
+Theorem C10_sig_partial_kw : forall (s : sigT) (n : nat) (kw : list (name * N)) (pobj : N) (r : sigT), sig_partial s n kw pobj = Ok r -> forall (x : name) (v : N), In (x, v) kw -> exists p : param, In p (params r) /\ pname p = x /\ pkind p = KO /\ pdef p = Some v /\ ((exists q : param, In q (params s) /\ pname q = x /\ is_kwpassable q = true /\ pann p = pann q /\ puann p = puann q) \/ pann p = None /\ puann p = UEmpty).
+Proof. exact @ContribEmbed.sig_partial_kw. Qed.
+Print Assumptions C10_sig_partial_kw.
+
+Theorem C10_mask_gen_order : forall (s : sigT) (n : nat) (h : hideflags) (named : list (name * N)) (pm : pmode) (r : sigT), mask_gen s n h named pm = Ok r -> valid_sig (params s) = true -> names_of (positional (params r)) = filter (fun x : N => mem x (names_of (positional (params r)))) (names_of (positional (params s))).
+Proof. exact @ContribEmbed.mask_gen_order. Qed.
+Print Assumptions C10_mask_gen_order.
 
